@@ -716,6 +716,18 @@ class CallMixin:
             # float(i) of an int, only ever fed to the ceil/floor(i / c) idiom: kept exact (see the assumption recorded there)
             self.assumptions.add("float(i) of an int is treated as exact (true while |i| < 2**53)")
             return k(st, VInt(ops.to_int(args[0])))
+        if name in ("min", "max") and len(args) == 1 and isinstance(args[0], VList) and args[0].elem.k == "int" and not kwargs:
+            # min / max of a list of ints: an element of the list that bounds all the others (ValueError on an empty list)
+            xs = args[0]
+            n = list_len(st, xs)
+            arr = list_arrays(st, xs)[0]
+
+            def nonempty(s_):
+                r, w, j = z3.Int(fresh_name(name)), z3.Int(fresh_name("at")), z3.Int("j!b")
+                s_.assume(z3.And(0 <= w, w < n, arr[w] == r))
+                s_.assume(z3.ForAll([j], z3.Implies(z3.And(0 <= j, j < n), (r <= arr[j]) if name == "min" else (r >= arr[j]))))
+                return k(s_, VInt(r))
+            return self.branch(st, n > 0, nonempty, lambda s_: self.raise_(s_, ctx, "ValueError", line))
         if name in ("min", "max") and len(args) == 2 and all(ops.to_int(a) is not None for a in args):
             a, b = ops.to_int(args[0]), ops.to_int(args[1])
             return k(st, VInt(z3.If(a <= b, a, b) if name == "min" else z3.If(a >= b, a, b)))
